@@ -3,8 +3,9 @@
 //! is the one config.rs gives), run generate_from_config in both modes and hand back types.ts and
 //! commands.ts. Also reports, per parameter, what syn sees of the type (path segments, kinds of
 //! generic arguments) so that the generator's abstraction is cross-checked, and what
-//! heck::ToLowerCamelCase (the function tauri-macros applies to argument names) makes of each name.
-use heck::ToLowerCamelCase;
+//! heck::ToLowerCamelCase / ToSnakeCase (what tauri-macros applies to argument names under
+//! rename_all = camelCase / snake_case) make of each name.
+use heck::{ToLowerCamelCase, ToSnakeCase};
 use serde_json::{json, Value};
 use std::fs;
 use std::panic::{catch_unwind, AssertUnwindSafe};
@@ -84,7 +85,7 @@ fn gen(case: &Value) -> Value {
     let mut abs = Vec::new();
     for p in case["params"].as_array().unwrap() {
         let n = p["name"].as_str().unwrap();
-        heck.push(json!(n.to_lower_camel_case()));
+        heck.push(json!([n.to_lower_camel_case(), n.to_snake_case()]));
         abs.push(abs_type(p["ty"].as_str().unwrap()));
     }
     json!({"id": case["id"], "plain": plain, "zod": zod, "heck": heck, "abs": abs})
